@@ -160,9 +160,15 @@ func GenQuery(t *rapid.T, wild bool) *QuerySpec {
 		q.DO = rapid.Bool().Draw(t, "qdo")
 		n := rapid.SampledFrom([]int{0, 0, 1, 1, 2, 3}).Draw(t, "qnopt")
 		for i := 0; i < n; i++ {
-			k := rapid.SampledFrom([]string{"cookie", "cookie", "nsid", "subnet", "padding", "keepalive", "local", "ede", "expire"}).Draw(t, "qoptkind")
+			k := rapid.SampledFrom([]string{"cookie", "cookie", "nsid", "subnet", "padding", "keepalive", "local", "ede", "expire", "rawknown"}).Draw(t, "qoptkind")
 			e := OptionSpec{Kind: k}
 			switch k {
+			case "rawknown":
+				// a well-known option code over a payload of arbitrary length, written as raw bytes: lengths the option's
+				// own format does not allow (1-octet keepalive, 3-octet subnet, 7-octet cookie, 1-octet EDE ...)
+				e.Kind = "local"
+				e.Code = rapid.SampledFrom([]uint16{dns.EDNS0TCPKEEPALIVE, dns.EDNS0TCPKEEPALIVE, dns.EDNS0SUBNET, dns.EDNS0COOKIE, dns.EDNS0EDE, dns.EDNS0EXPIRE, dns.EDNS0NSID, dns.EDNS0PADDING}).Draw(t, "qrawcode")
+				e.Data = rapid.SampledFrom([]string{"", "aa", "aabb", "aabbcc", "00010203", "0001020304050607", "00010203040506", "000102030405060708090a0b0c0d0e0f101112131415161718191a1b1c1d1e1f2021222324252627"}).Draw(t, "qrawdata")
 			case "cookie":
 				e.Data = rapid.SampledFrom([]string{"0102030405060708", "0102030405060708a1a2a3a4a5a6a7a8", "1112131415161718b1b2b3b4b5b6b7b8b9", "01020304", ""}).Draw(t, "qcookie")
 			case "subnet":
